@@ -215,5 +215,26 @@ func extractSuggestion(p *core.Program, fi int, checker string, d core.Diag) (*s
 
 // applySuggestion returns the file text with the suggestion applied.
 func applySuggestion(src []byte, s *suggestion) string {
+	// a replacement must not fuse with the neighbouring token (`return(*t).n` -> `returnt.n` is an
+	// artefact of textual substitution, not of the suggestion): an expression is parenthesised,
+	// anything else gets a space. s.B is updated so that later offset arithmetic stays exact.
+	isWord := func(c byte) bool {
+		return c == '_' || c >= '0' && c <= '9' || c >= 'a' && c <= 'z' || c >= 'A' && c <= 'Z' || c >= 0x80
+	}
+	b := s.B
+	fuseL := s.From > 0 && len(b) > 0 && isWord(src[s.From-1]) && isWord(b[0])
+	fuseR := s.To < len(src) && len(b) > 0 && isWord(src[s.To]) && isWord(b[len(b)-1])
+	if fuseL || fuseR {
+		if _, isExpr := s.Node.(ast.Expr); isExpr {
+			s.B = "(" + b + ")"
+		} else {
+			if fuseL {
+				s.B = " " + s.B
+			}
+			if fuseR {
+				s.B += " "
+			}
+		}
+	}
 	return string(src[:s.From]) + s.B + string(src[s.To:])
 }
